@@ -4,21 +4,21 @@ From RP2V Require Import Base.Prelude Base.Time Base.Dec Base.Sorting Model.Type
   Proofs.ParserLookup Proofs.ParserRows.
 Open Scope Z_scope.
 
-Definition st_of (cur : option table) (cnt : Z) (a : acc) : pstate :=
+Definition st_of (cur : option table) (cnt : Z) (seen : list table) (a : acc) : pstate :=
   {| ps_cur := cur; ps_count := cnt; ps_ins := a_ins a; ps_outs := a_outs a; ps_intras := a_intras a;
-     ps_art := a_art a; ps_counter := a_counter a; ps_meta := a_meta a |}.
+     ps_art := a_art a; ps_counter := a_counter a; ps_meta := a_meta a; ps_seen := seen |}.
 
 Lemma meta_of_args h fc f : args_of h fc f = meta_arg h f (fc f).
 Proof. reflexivity. Qed.
 
 (** ---------- one data row *)
-Lemma data_row_render cfg asset ai cur cnt a a' rowno w r junk :
+Lemma data_row_render cfg asset ai cur cnt seen a a' rowno w r junk :
   wf_header (header_of cfg (srow_tab r)) w ->
   (forall f, In f (mandatory_of (srow_tab r)) -> mapped (header_of cfg (srow_tab r)) f = true) ->
   str_index asset (pc_assets cfg) 0 = Some ai -> srow_ok r = true ->
   expect_row cfg a rowno r = Ok a' ->
-  data_row cfg asset (st_of cur cnt a) (srow_tab r) rowno (render_row (header_of cfg (srow_tab r)) w (srow_cell asset r) junk)
-  = Ok (st_of cur cnt a').
+  data_row cfg asset (st_of cur cnt seen a) (srow_tab r) rowno (render_row (header_of cfg (srow_tab r)) w (srow_cell asset r) junk)
+  = Ok (st_of cur cnt seen a').
 Proof.
   intros WF M A OK E.
   assert (AS : forall h fc, wf_header h w -> mapped h 1 = true -> fc 1 = CStr asset ->
@@ -90,50 +90,53 @@ Definition tab_empty (a : acc) (t : table) : bool :=
   end.
 
 (** ---------- one sheet row of each kind *)
-Lemma step_blank cfg asset cnt a rowno r : is_blank_row r = true ->
-  row_step cfg asset (st_of None cnt a) rowno r = Ok (st_of None (cnt + 1) a).
+Lemma step_blank cfg asset cnt seen a rowno r : is_blank_row r = true ->
+  row_step cfg asset (st_of None cnt seen a) rowno r = Ok (st_of None (cnt + 1) seen a).
 Proof.
   unfold is_blank_row. intro H. destruct (empty_cell_facts _ H) as [K E].
-  unfold row_step. simpl ps_cur. rewrite K, E, H. simpl. reflexivity.
+  unfold row_step, row_step_gen. simpl ps_cur. rewrite K, E, H. simpl. reflexivity.
 Qed.
 
-Lemma step_kw cfg asset cnt a rowno r t : table_of_cell (nth 0 r CEmpty) = Some t -> tab_empty a t = true ->
-  row_step cfg asset (st_of None cnt a) rowno r = Ok (st_of (Some t) 1 a).
+Lemma table_eqb_eq a b : table_eqb a b = true <-> a = b.
+Proof. destruct a, b; simpl; split; intro H; try reflexivity; try discriminate. Qed.
+
+Lemma step_kw cfg asset cnt seen a rowno r t : table_of_cell (nth 0 r CEmpty) = Some t -> tab_empty a t = true -> seen_has t seen = false ->
+  row_step cfg asset (st_of None cnt seen a) rowno r = Ok (st_of (Some t) 1 (t :: seen) a).
 Proof.
-  intros H TE. destruct (kw_facts _ _ H) as [E1 E2].
-  unfold row_step. simpl ps_cur. rewrite H, E1, E2. simpl.
-  assert (S : set_empty (st_of None cnt a) t = true) by (destruct t; exact TE).
-  rewrite S. reflexivity.
+  intros H TE SH. destruct (kw_facts _ _ H) as [E1 E2].
+  assert (S : repeated_table gen_parser_remembers_tables (st_of None cnt seen a) t = false).
+  { unfold repeated_table. destruct gen_parser_remembers_tables; [exact SH|]. destruct t; simpl; simpl in TE; rewrite TE; reflexivity. }
+  unfold row_step, row_step_gen. cbv zeta. cbn [ps_cur st_of]. rewrite H, E1, E2. cbn [orb andb negb]. fold (st_of None cnt seen a). rewrite S. reflexivity.
 Qed.
 
-Lemma step_hdr cfg asset a rowno r t : first_ok (nth 0 r CEmpty) = true -> constructs cfg t rowno r = false ->
-  row_step cfg asset (st_of (Some t) 1 a) rowno r = Ok (st_of (Some t) 2 a).
+Lemma step_hdr cfg asset seen a rowno r t : first_ok (nth 0 r CEmpty) = true -> constructs cfg t rowno r = false ->
+  row_step cfg asset (st_of (Some t) 1 seen a) rowno r = Ok (st_of (Some t) 2 seen a).
 Proof.
   intros F C. destruct (first_ok_facts _ F) as [E1 [E2 E3]].
-  unfold row_step. simpl ps_cur. rewrite E3, E1, E2. simpl. rewrite C. reflexivity.
+  unfold row_step, row_step_gen. simpl ps_cur. rewrite E3, E1, E2. simpl. rewrite C. reflexivity.
 Qed.
 
-Lemma step_end cfg asset cnt a rowno r t : is_table_end (nth 0 r CEmpty) = true ->
-  row_step cfg asset (st_of (Some t) cnt a) rowno r = Ok (st_of None (cnt + 1) a).
+Lemma step_end cfg asset cnt seen a rowno r t : is_table_end (nth 0 r CEmpty) = true ->
+  row_step cfg asset (st_of (Some t) cnt seen a) rowno r = Ok (st_of None (cnt + 1) seen a).
 Proof.
   intro H. destruct (table_end_facts _ H) as [K E].
-  unfold row_step. simpl ps_cur. rewrite K, E, H. simpl. reflexivity.
+  unfold row_step, row_step_gen. simpl ps_cur. rewrite K, E, H. simpl. reflexivity.
 Qed.
 
-Lemma step_data cfg asset ai cnt a a' rowno w r junk :
+Lemma step_data cfg asset ai cnt seen a a' rowno w r junk :
   2 <= cnt ->
   wf_header (header_of cfg (srow_tab r)) w ->
   (forall f, In f (mandatory_of (srow_tab r)) -> mapped (header_of cfg (srow_tab r)) f = true) ->
   str_index asset (pc_assets cfg) 0 = Some ai -> srow_ok r = true ->
   first_ok (nth 0 (render_row (header_of cfg (srow_tab r)) w (srow_cell asset r) junk) CEmpty) = true ->
   expect_row cfg a rowno r = Ok a' ->
-  row_step cfg asset (st_of (Some (srow_tab r)) cnt a) rowno (render_row (header_of cfg (srow_tab r)) w (srow_cell asset r) junk)
-  = Ok (st_of (Some (srow_tab r)) (cnt + 1) a').
+  row_step cfg asset (st_of (Some (srow_tab r)) cnt seen a) rowno (render_row (header_of cfg (srow_tab r)) w (srow_cell asset r) junk)
+  = Ok (st_of (Some (srow_tab r)) (cnt + 1) seen a').
 Proof.
   intros C WF M A OK F E. destruct (first_ok_facts _ F) as [E1 [E2 E3]].
-  unfold row_step. simpl ps_cur. rewrite E3, E1, E2. simpl orb. cbv iota. simpl ps_count.
+  unfold row_step, row_step_gen. simpl ps_cur. rewrite E3, E1, E2. simpl orb. cbv iota. simpl ps_count.
   destruct (cnt =? 1) eqn:C1; [apply Z.eqb_eq in C1; lia|].
-  rewrite (data_row_render _ _ _ _ _ _ _ _ _ _ _ WF M A OK E). reflexivity.
+  rewrite (data_row_render _ _ _ _ _ _ _ _ _ _ _ _ WF M A OK E). reflexivity.
 Qed.
 
 (** ---------- sequences of rows *)
@@ -141,12 +144,12 @@ Lemma parse_rows_cons cfg asset s n r t :
   parse_rows cfg asset s n (r :: t) = match row_step cfg asset s n r with Err e => Err e | Ok s' => parse_rows cfg asset s' (n + 1) t end.
 Proof. reflexivity. Qed.
 
-Lemma rows_blank cfg asset : forall gap cnt a rowno rest,
+Lemma rows_blank cfg asset : forall gap cnt seen a rowno rest,
   (forall r, In r gap -> is_blank_row r = true) ->
-  parse_rows cfg asset (st_of None cnt a) rowno (gap ++ rest)
-  = parse_rows cfg asset (st_of None (cnt + Z.of_nat (length gap)) a) (rowno + Z.of_nat (length gap)) rest.
+  parse_rows cfg asset (st_of None cnt seen a) rowno (gap ++ rest)
+  = parse_rows cfg asset (st_of None (cnt + Z.of_nat (length gap)) seen a) (rowno + Z.of_nat (length gap)) rest.
 Proof.
-  induction gap as [|r gap IH]; intros cnt a rowno rest H.
+  induction gap as [|r gap IH]; intros cnt seen a rowno rest H.
   - simpl. rewrite !Z.add_0_r. reflexivity.
   - rewrite <- app_comm_cons, parse_rows_cons, step_blank by (apply H; left; reflexivity).
     rewrite IH by (intros r' Hr; apply H; right; exact Hr).
@@ -156,15 +159,15 @@ Qed.
 Definition render_data (cfg : pcfg) (asset : str) (t : table) (w : nat) (rows : list (srow * (nat -> cell))) : list (list cell) :=
   map (fun rj => render_row (header_of cfg t) w (srow_cell asset (fst rj)) (snd rj)) rows.
 
-Lemma rows_data cfg asset ai w t : forall rows cnt a a' rowno rest,
+Lemma rows_data cfg asset ai w t seen : forall rows cnt a a' rowno rest,
   2 <= cnt -> wf_header (header_of cfg t) w ->
   (forall f, In f (mandatory_of t) -> mapped (header_of cfg t) f = true) ->
   str_index asset (pc_assets cfg) 0 = Some ai ->
   (forall rj, In rj rows -> srow_tab (fst rj) = t /\ srow_ok (fst rj) = true) ->
   (forall rj, In rj rows -> first_ok (nth 0 (render_row (header_of cfg t) w (srow_cell asset (fst rj)) (snd rj)) CEmpty) = true) ->
   expect_rows cfg a rowno rows = Ok a' ->
-  parse_rows cfg asset (st_of (Some t) cnt a) rowno (render_data cfg asset t w rows ++ rest)
-  = parse_rows cfg asset (st_of (Some t) (cnt + Z.of_nat (length rows)) a') (rowno + Z.of_nat (length rows)) rest.
+  parse_rows cfg asset (st_of (Some t) cnt seen a) rowno (render_data cfg asset t w rows ++ rest)
+  = parse_rows cfg asset (st_of (Some t) (cnt + Z.of_nat (length rows)) seen a') (rowno + Z.of_nat (length rows)) rest.
 Proof.
   induction rows as [|rj rows IH]; intros cnt a a' rowno rest C WF M A TO F E.
   - simpl in E. inversion E; subst. simpl. rewrite !Z.add_0_r. reflexivity.
@@ -172,7 +175,7 @@ Proof.
     destruct (TO rj (or_introl eq_refl)) as [T O].
     unfold render_data. simpl map. rewrite <- app_comm_cons, parse_rows_cons.
     subst t.
-    rewrite (step_data _ _ _ _ _ _ _ _ _ _ C WF M A O (F rj (or_introl eq_refl)) E1).
+    rewrite (step_data _ _ _ _ seen _ _ _ _ _ _ C WF M A O (F rj (or_introl eq_refl)) E1).
     fold (render_data cfg asset (srow_tab (fst rj)) w rows).
     rewrite (IH (cnt + 1) a1 a' (rowno + 1) rest); auto; try lia.
     + simpl length. rewrite Nat2Z.inj_succ. f_equal; [f_equal|]; lia.
@@ -180,22 +183,23 @@ Proof.
     + intros rj' H'. apply F. right; exact H'.
 Qed.
 
-Lemma block_parse cfg asset ai b cnt a a' rowno rest :
+Lemma block_parse cfg asset ai b cnt seen a a' rowno rest :
   wf_block cfg asset rowno b -> str_index asset (pc_assets cfg) 0 = Some ai -> tab_empty a (b_tab b) = true ->
+  seen_has (b_tab b) seen = false ->
   expect_rows cfg a (rowno + Z.of_nat (length (b_gap b)) + 2) (b_rows b) = Ok a' ->
-  exists cnt', parse_rows cfg asset (st_of None cnt a) rowno (render_block cfg asset b ++ rest)
-               = parse_rows cfg asset (st_of None cnt' a') (rowno + block_len b) rest.
+  exists cnt', parse_rows cfg asset (st_of None cnt seen a) rowno (render_block cfg asset b ++ rest)
+               = parse_rows cfg asset (st_of None cnt' (b_tab b :: seen) a') (rowno + block_len b) rest.
 Proof.
-  intros W A TE E. destruct W as [WH WM WG WK WF WC WT WR WE].
+  intros W A TE SH E. destruct W as [WH WM WG WK WF WC WT WR WE].
   unfold render_block. rewrite <- !app_assoc.
   rewrite rows_blank by assumption.
-  simpl app. rewrite parse_rows_cons, (step_kw _ _ _ _ _ _ _ WK TE).
+  simpl app. rewrite parse_rows_cons, (step_kw _ _ _ _ _ _ _ _ WK TE SH).
   rewrite parse_rows_cons.
-  rewrite (step_hdr _ _ _ _ _ _ WF WC).
+  rewrite (step_hdr _ _ _ _ _ _ _ WF WC).
   fold (render_data cfg asset (b_tab b) (b_width b) (b_rows b)).
   replace (rowno + Z.of_nat (length (b_gap b)) + 1 + 1) with (rowno + Z.of_nat (length (b_gap b)) + 2) by lia.
-  rewrite (rows_data cfg asset ai (b_width b) (b_tab b) (b_rows b) 2 a a' _ ([b_end b] ++ rest)); auto; try lia.
-  simpl app. rewrite parse_rows_cons, (step_end _ _ _ _ _ _ _ WE).
+  rewrite (rows_data cfg asset ai (b_width b) (b_tab b) (b_tab b :: seen) (b_rows b) 2 a a' _ ([b_end b] ++ rest)); auto; try lia.
+  simpl app. rewrite parse_rows_cons, (step_end _ _ _ _ _ _ _ _ WE).
   eexists. f_equal. unfold block_len. lia.
 Qed.
 
@@ -230,27 +234,38 @@ Qed.
 Lemma tab_code_inj t t' : tab_code t = tab_code t' -> t = t'.
 Proof. destruct t, t'; simpl; intro H; try reflexivity; discriminate. Qed.
 
-Lemma blocks_parse cfg asset ai : forall blocks cnt a a' rowno rest,
+(** the table types begun after the blocks, most recent first *)
+Definition seen_after (blocks : list block) (seen : list table) : list table := rev (map b_tab blocks) ++ seen.
+
+Lemma blocks_parse cfg asset ai : forall blocks cnt seen a a' rowno rest,
   wf_blocks cfg asset rowno blocks -> str_index asset (pc_assets cfg) 0 = Some ai ->
   NoDup (map (fun b => tab_code (b_tab b)) blocks) ->
-  (forall b, In b blocks -> tab_empty a (b_tab b) = true) ->
+  (forall b, In b blocks -> tab_empty a (b_tab b) = true /\ seen_has (b_tab b) seen = false) ->
   expect_blocks cfg a rowno blocks = Ok a' ->
-  exists cnt', parse_rows cfg asset (st_of None cnt a) rowno (flat_map (render_block cfg asset) blocks ++ rest)
-               = parse_rows cfg asset (st_of None cnt' a') (rowno + blocks_len blocks) rest.
+  exists cnt', parse_rows cfg asset (st_of None cnt seen a) rowno (flat_map (render_block cfg asset) blocks ++ rest)
+               = parse_rows cfg asset (st_of None cnt' (seen_after blocks seen) a') (rowno + blocks_len blocks) rest.
 Proof.
-  induction blocks as [|b blocks IH]; intros cnt a a' rowno rest W A ND TE E.
+  induction blocks as [|b blocks IH]; intros cnt seen a a' rowno rest W A ND TE E.
   - simpl in E. inversion E; subst. exists cnt. simpl. rewrite Z.add_0_r. reflexivity.
   - simpl in E, W. destruct W as [Wb W].
     destruct (expect_rows cfg a (rowno + Z.of_nat (length (b_gap b)) + 2) (b_rows b)) as [a1|] eqn:E1; [|discriminate].
     simpl flat_map. rewrite <- app_assoc.
-    destruct (block_parse cfg asset ai b cnt a a1 rowno (flat_map (render_block cfg asset) blocks ++ rest) Wb A
-                (TE b (or_introl eq_refl)) E1) as [c1 P1].
+    destruct (TE b (or_introl eq_refl)) as [TE1 TE2].
+    destruct (block_parse cfg asset ai b cnt seen a a1 rowno (flat_map (render_block cfg asset) blocks ++ rest) Wb A TE1 TE2 E1) as [c1 P1].
     rewrite P1.
     inversion ND as [|x l Hnot ND']; subst.
-    destruct (IH c1 a1 a' (rowno + block_len b) rest W A ND') as [c2 P2]; auto.
-    + intros b' Hb'. rewrite (expect_rows_other cfg (b_tab b) (b_tab b') (b_rows b) a a1 _ ltac:(intros rj Hr; destruct Wb as [_ _ _ _ _ _ WT _ _]; apply (WT rj Hr)) ltac:(intro Heq; apply Hnot; rewrite <- Heq; apply (in_map (fun b0 => tab_code (b_tab b0))); exact Hb') E1).
-      apply TE. right; exact Hb'.
-    + exists c2. rewrite P2. simpl blocks_len. f_equal. lia.
+    destruct (IH c1 (b_tab b :: seen) a1 a' (rowno + block_len b) rest W A ND') as [c2 P2]; auto.
+    + intros b' Hb'.
+      assert (NEQ : b_tab b' <> b_tab b).
+      { intro Heq. apply Hnot. rewrite <- Heq. apply (in_map (fun b0 => tab_code (b_tab b0))). exact Hb'. }
+      split.
+      * rewrite (expect_rows_other cfg (b_tab b) (b_tab b') (b_rows b) a a1 _
+                   ltac:(intros rj Hr; destruct Wb as [_ _ _ _ _ _ WT _ _]; apply (WT rj Hr)) NEQ E1).
+        apply TE. right; exact Hb'.
+      * simpl. destruct (table_eqb (b_tab b') (b_tab b)) eqn:TB; [apply table_eqb_eq in TB; contradiction|].
+        simpl. apply TE. right; exact Hb'.
+    + exists c2. rewrite P2. simpl blocks_len. unfold seen_after. simpl map. simpl rev. rewrite <- app_assoc. simpl app.
+      f_equal. lia.
 Qed.
 
 (** ---------- the theorem *)
@@ -264,13 +279,15 @@ Theorem parse_render cfg asset ai counter blocks trailing p :
 Proof.
   intros A W ND TR E NE. unfold expected in E.
   destruct (expect_blocks cfg (acc0 counter) 1 blocks) as [a|] eqn:EB; [|discriminate]. inversion E; subst p; clear E.
-  unfold parse_sheet. rewrite A. unfold render_sheet.
-  change {| ps_cur := None; ps_count := 0; ps_ins := []; ps_outs := []; ps_intras := []; ps_art := []; ps_counter := counter; ps_meta := [] |}
-    with (st_of None 0 (acc0 counter)).
-  destruct (blocks_parse cfg asset ai blocks 0 (acc0 counter) a 1 trailing W A ND) as [c P]; auto.
-  { intros b _. destruct (b_tab b); reflexivity. }
+  unfold parse_sheet, parse_sheet_gen. rewrite A. unfold render_sheet.
+  change (parse_rows_gen gen_parser_remembers_tables) with parse_rows.
+  change {| ps_cur := None; ps_count := 0; ps_ins := []; ps_outs := []; ps_intras := []; ps_art := []; ps_counter := counter; ps_meta := [];
+            ps_seen := [] |}
+    with (st_of None 0 [] (acc0 counter)).
+  destruct (blocks_parse cfg asset ai blocks 0 [] (acc0 counter) a 1 trailing W A ND) as [c P]; auto.
+  { intros b _. split; [destruct (b_tab b); reflexivity | reflexivity]. }
   rewrite P.
   rewrite <- (app_nil_r trailing), rows_blank by assumption.
-  simpl parse_rows. unfold st_of, parsed_of. simpl.
+  unfold parse_rows. simpl parse_rows_gen. unfold st_of, parsed_of. simpl.
   simpl in NE. destruct (a_ins a) eqn:AI; [congruence|]. reflexivity.
 Qed.
